@@ -26,10 +26,9 @@ go test -vet=off -count=1 ./$place > $W/demo2.log 2>&1 && echo "demo without pat
 rm -f $place/zz_seed_demo_test.go
 patch -p1 -s < $S/patch.diff
 if [ -n "$prop" ] && grep -q "\"$prop\"" $V/props.json; then
-  cd $V && VERIF_REPO=$W/r ./check $prop --tier quick > $W/check.log 2>&1; rc=$?
+  cd $V && VERIF_OUT=$W/out VERIF_REPO=$W/r ./check $prop --tier quick > $W/check.log 2>&1; rc=$?
   echo "check $prop on patched tree: exit $rc" >> $log
   grep -E 'VIOLATION|failed obligation|KNOWN' $W/check.log | head -8 >> $log
-  git -C $V checkout -q -- evidence/$prop.json 2>/dev/null
 else
   echo "check $prop: not built yet" >> $log
 fi
